@@ -125,14 +125,14 @@ EXTRA = {
     "C01": "Also: stream-table writer census, send-state fidelity, instance (not class) state, CLOSED stored before the first suspension of the lock-free close routine, and the convenience API closing an unfinished exchange on every exit. Round 6: every append to a per-stream event queue holds the read lock under which the batch was read (C01.R12). Round 9: the HTTP/1.1 response-close routine never reads or advances the peer side of h11 (C01.R13) - the both-sides-DONE test stays sound after a failed send.",
     "C02": "Also: no cancellation point between h2.receive_data() and the end of the batch dispatch (reports KF27), and each real backend's read() returning the bytes of one receive primitive unmodified (b'' only for an end-of-stream class). Round 7: every DATA frame's flow-controlled length is returned as credit (C02.R8, the rule of C13.R5 run under this property). Round 8: inside the h2 read lock the socket is read only while the caller's own event queue is still empty (C02.R9, double-checked read).",
     "C03": "Also: drain-to-write atomicity, fresh header list, Request never modified after construction, and each real backend's write() delivering the whole buffer (write-all primitive or a partial send in a loop advanced by the returned count). Round 6: census of `raise ConnectionNotAvailable` - a transmission attempt is repeated only from a point where nothing can have been sent (C03.R10; reports KF33: the GOAWAY re-send of a consumed iterator body). Round 7: the supplied Host / :authority names the URL's authority (C03.R11, rule of C19.R6). Round 8: no store into a URL / Origin object after construction - the caller's own URL instance is passed through (C03.R12, rule of C19.R8).",
-    "C04": "Also: closed-means-closed predicates, lazy establishment as a test-and-set inside the establishment lock (lexical on both trees, await-atomicity census on the async tree). Round 5: every run of the assignment pass holds the pool lock (C04.R9, sync tree).",
+    "C04": "Also: closed-means-closed predicates, lazy establishment as a test-and-set inside the establishment lock (lexical on both trees, await-atomicity census on the async tree). Round 5: every run of the assignment pass holds the pool lock (C04.R9, sync tree). Round 9: a private helper called only from inside the establishment region belongs to it; inside the attempt loop the failure flag is stored only on paths that leave the loop (C04.R4).",
     "C05": "Also: convenience API / Response close on every exit, shield fidelity, AsyncEvent.wait reporting PoolTimeout only as the mapped expiry of fail_after, the origin store link, and the abandoned-waiter rule (assignment consumed or inspected on every exit) which reports KF29.",
     "C06": "Also: is_closed() truth tables, backend close() reaching the OS release on every path, every raising construct of start_tls (timeout scope included) inside the try that closes the stream, pool context exit and one-shot API scoping. Round 9: the establishment-failure flag is set only when establishment has finally failed (C06.R9, rule of C04.R4; reports KF21 - the first stream is never closed).",
     "C07": "Also: the typestate and establishment rules shared with C05, primitive fidelity (no check-then-create window for a lost wake-up), the abandoned-waiter rule (KF29) and the origin store link. Round 7: is_available() of an establishing connection tests the scheme of the origin it serves (C07.R11). Round 8: a task that waited for the h2 read lock re-checks its own event queue before reading the socket - otherwise it blocks on a server that has answered (C07.R12). Round 9: stream-slot permits follow the advertised limit exactly (C07.R13, rule of C12.R3).",
     "C08": "Also: h2 drain+write / read+feed critical sections, primitive fidelity, establishment test-and-set, and an Eraser-style lockset census over all 27 written fields of the 11 thread-shared classes with check-then-act detection (found KF31, repaired). Rounds 5-6: publication order for double-checked locking (C08.R11), census of unlocked tests of lock-managed fields outside the advisory predicates (C08.R12), implicit __repr__/__str__ calls through logging and f-strings in the re-entry / blocking analyses. Round 7: only idle / expired / surplus-idle connections are evicted (C08.R13, rule of C09.R3).",
     "C09": "Also: the IDLE store guarded by the maintained in-flight set, the readability probe polling the OS socket on every backend, keepalive_expiry plumbing through every constructor call, and visibility of a request past the ACTIVE gate to the IDLE transition (reports KF32). Round 8: the has_expired() truth table includes keepalive_expiry=None (no deadline armed): the readability probe of an idle connection must still be reached. Round 9: recovery awaits of the connection classes are shielded, so in-flight accounting that keeps a connection ACTIVE is always given back (C09.R9, rule of C05.R4).",
-    "C10": "Also: ALPN set before the handshake with no network operation in between, fresh SSL context, plumbing of TLS / protocol / origin / connect-target parameters through every constructor call, derived URL/Origin identity, AutoBackend as a pure delegation. Rounds 5-6: ALPN set on the very context that is handed to the handshake, on every path (dominance); nothing modifies a Request or the extensions mapping it shares with the caller (C10.R11). Round 7: TLS and the origin request go onto a tunnel only after a 2xx (C10.R12, rule of C11.R3).",
-    "C11": "Also: the SOCKS negotiated address, the refusal branch failing only with ProxyError, and proxy-hop configuration plumbing (the hop to the proxy never inherits the origin's protocol flags). Round 7: TLS-scheme origins behind an HTTP proxy are tunnelled, never forwarded (C11.R7, cells of C10.R3).",
+    "C10": "Also: ALPN set before the handshake with no network operation in between, fresh SSL context, plumbing of TLS / protocol / origin / connect-target parameters through every constructor call, derived URL/Origin identity, AutoBackend as a pure delegation. Rounds 5-6: ALPN set on the very context that is handed to the handshake, on every path (dominance); nothing modifies a Request or the extensions mapping it shares with the caller (C10.R11). Round 7: TLS and the origin request go onto a tunnel only after a 2xx (C10.R12, rule of C11.R3). Round 9: the CONNECT target is decided by evaluation with distinct remote / proxy / caller hosts; a protocol-selection variable bound once per branch is judged binding by binding (C10.R2, C10.R6).",
+    "C11": "Also: the SOCKS negotiated address, the refusal branch failing only with ProxyError, and proxy-hop configuration plumbing (the hop to the proxy never inherits the origin's protocol flags). Round 7: TLS-scheme origins behind an HTTP proxy are tunnelled, never forwarded (C11.R7, cells of C10.R3). Round 9: the CONNECT target value is decided by evaluation (C11.R2).",
     "C12": "Also: stream-table census, connection-wide failure fields set only for Exceptions, stream id reserved atomically with HEADERS (reports KF30), a request waiting for a slot visible to the IDLE transition (reports KF32), await-atomicity census. Round 6: no cancellation point between draining the shared h2 output buffer and writing it (C12.R10). Round 7: a peer's MAX_CONCURRENT_STREAMS = 0 is never applied (C12.R11). Round 8: double-checked read of the shared socket (C12.R12); the stream-slot permit is given back at most once per response (C12.R13, rule of C05.R5).",
     "C13": "Also: the wait loop waiting while the window is negative (found KF28, repaired), END_STREAM agreement between HEADERS and the body routine, and the backend write() delivering each frame completely and in order. Round 9: flush-before-wait - a forward may-analysis over the HTTP/2 class shows no network read is reached while frames the task queued on the h2 state machine are unwritten (C13.R9).",
     "C15": "Also: timeout scopes inside the mapping scope, every raw socket/runtime call of a backend operation inside map_exceptions, the mapping helper itself still meaning what the analysis assumes, no context manager of the package suppressing exceptions. Round 7: the internal retry signal is raised after a send only strictly above the GOAWAY's last-stream-id (C15.R8, rule of C14.R2). Round 9: an escape through a parked exception (`raise self._read_exception`) is keyed separately from the direct one, so a known finding cannot hide a new way out.",
